@@ -164,7 +164,7 @@ func quoteField(q *ref.Quote, name string) []byte {
 	return nil
 }
 
-var optKinds = []string{"nil", "empty", "equal", "first-differs", "last-differs", "random-differs", "one-short", "one-long", "all-zero", "double"}
+var optKinds = []string{"nil", "empty", "equal", "first-differs", "last-differs", "random-differs", "one-short", "one-long", "all-zero", "double", "plus-256", "plus-512", "plus-65536"}
 
 // variant derives an option value of the given kind from the quote's actual value.
 func variant(r *mrand.Rand, kind string, actual []byte) []byte {
@@ -189,6 +189,10 @@ func variant(r *mrand.Rand, kind string, actual []byte) []byte {
 		c = make([]byte, len(c))
 	case "double":
 		c = append(c, c...)
+	case "plus-256", "plus-512", "plus-65536": // lengths that equal the right one modulo 2^8 / 2^16: the actual value followed by zeros
+		var n int
+		fmt.Sscanf(kind, "plus-%d", &n)
+		c = append(c, make([]byte, n)...)
 	}
 	return c
 }
